@@ -1324,6 +1324,29 @@ fn wall_clock_cases(ctx: &mut Ctx) {
         if real_future != none || real_timeout != none {
             ctx.violation("C07", &req, "a deadline / timeout one hour ahead (real clock) does not give the result of no deadline".to_string());
         }
+        // the setters OVERRIDE each other: whichever of `deadline` / `timeout` was called last on one builder decides
+        let hour = Duration::from_secs(3600);
+        let seqs: [(&str, &dyn Fn(&mut similar::TextDiffConfig), bool); 6] = [
+            ("deadline(past) then timeout(1h)", &|c| { c.deadline(past); c.timeout(hour); }, false),
+            ("timeout(1h) then deadline(past)", &|c| { c.timeout(hour); c.deadline(past); }, true),
+            ("deadline(in 1h) then timeout(0)", &|c| { c.deadline(Instant::now() + hour); c.timeout(Duration::from_secs(0)); }, true),
+            ("timeout(0) then deadline(in 1h)", &|c| { c.timeout(Duration::from_secs(0)); c.deadline(Instant::now() + hour); }, false),
+            ("deadline(past) then deadline(in 1h)", &|c| { c.deadline(past); c.deadline(Instant::now() + hour); }, false),
+            ("timeout(0) then timeout(1h)", &|c| { c.timeout(Duration::from_secs(0)); c.timeout(hour); }, false),
+        ];
+        for (what, set, expired) in seqs {
+            let got = catch_unwind(AssertUnwindSafe(|| {
+                let mut cfg = TextDiff::configure();
+                cfg.algorithm(alg);
+                set(&mut cfg);
+                cfg.diff_lines(&old, &new).ops().to_vec()
+            }))
+            .ok();
+            let want = if expired { &virt0 } else { &none };
+            if &got != want {
+                ctx.violation("C07", &req, format!("one builder, {}: the result is not that of {}", what, if expired { "an expired deadline" } else { "no deadline" }));
+            }
+        }
     }
     // the kept builders: wait until more than their timeout has passed since they were configured
     let wait = Duration::from_millis(1000).saturating_sub(configured.elapsed());
@@ -1585,6 +1608,50 @@ impl std::io::Write for PlainSink {
     }
 }
 
+/// an `io::Write` with its OWN `write_vectored`: accepts at most `max` bytes per call, counted across the buffers of one
+/// vectored call (so a call may end in the middle of any buffer); every `every`-th call fails with `Interrupted` first
+struct VectoredSink {
+    buf: Vec<u8>,
+    max: usize,
+    every: usize,
+    calls: usize,
+}
+impl VectoredSink {
+    fn tick(&mut self) -> std::io::Result<()> {
+        self.calls += 1;
+        if self.every > 0 && self.calls % self.every == 0 {
+            return Err(std::io::Error::new(std::io::ErrorKind::Interrupted, "try again"));
+        }
+        Ok(())
+    }
+}
+impl std::io::Write for VectoredSink {
+    fn write(&mut self, b: &[u8]) -> std::io::Result<usize> {
+        self.tick()?;
+        let k = b.len().min(self.max);
+        self.buf.extend_from_slice(&b[..k]);
+        Ok(k)
+    }
+    fn write_vectored(&mut self, bufs: &[std::io::IoSlice<'_>]) -> std::io::Result<usize> {
+        self.tick()?;
+        let mut left = self.max;
+        let mut n = 0;
+        for b in bufs {
+            let k = b.len().min(left);
+            self.buf.extend_from_slice(&b[..k]);
+            n += k;
+            left -= k;
+            if left == 0 {
+                break;
+            }
+        }
+        Ok(n)
+    }
+    fn flush(&mut self) -> std::io::Result<()> {
+        Ok(())
+    }
+}
+
 /// builds the line diff (with the swap repair switched on if `repair`) and renders it both ways
 fn render_udiff<T: DiffableStr + ?Sized>(c: &UCfg, repair: bool, old: &T, new: &T) -> Option<URender> {
     let (r, _, _, _) = obs::with_world(None, repair, |_| {
@@ -1613,6 +1680,16 @@ fn render_udiff<T: DiffableStr + ?Sized>(c: &UCfg, repair: bool, old: &T, new: &
                 // make the difference visible to the validators as a writer output that is not the Vec output
                 w = if plain.buf != w { plain.buf } else { short.buf };
                 w.extend_from_slice(b"\n<sink output differs from Vec output>");
+            }
+            // sinks with their own vectored write that take 1, 2, 3, 4, 5, 7, 31 bytes per call (a call may end inside the
+            // tag, the line body or the trailer), some of them interrupting every third call
+            for (max, every) in [(1usize, 0usize), (2, 0), (3, 0), (4, 3), (5, 0), (7, 2), (31, 0)] {
+                let mut v = VectoredSink { buf: vec![], max, every, calls: 0 };
+                u.to_writer(&mut v).expect("writing to a sink cannot fail");
+                if v.buf != w && !w.ends_with(b"differs from Vec output>") {
+                    w = v.buf;
+                    w.extend_from_slice(format!("\n<output through a writer taking {} bytes per vectored call differs from Vec output>", max).as_bytes());
+                }
             }
             w
         }))
